@@ -138,7 +138,7 @@ static void fill_stat(const Inode *i, struct stat *st) {
   memset(st, 0, sizeof *st);
   st->st_dev = 1; st->st_ino = i->ino; st->st_nlink = (nlink_t)i->nlink; st->st_uid = i->uid; st->st_gid = i->gid;
   st->st_mode = i->mode | (i->type == T_DIR ? S_IFDIR : i->type == T_FIFO ? S_IFIFO : S_IFREG);
-  st->st_size = i->type == T_REG ? (off_t)i->data.size() : (i->type == T_DIR ? 4096 : 0);
+  st->st_size = i->type == T_REG ? (off_t)(i->data.size() + i->hole) : (i->type == T_DIR ? 4096 : 0);
   st->st_blksize = 4096; st->st_blocks = (st->st_size + 511) / 512;
   st->st_atim.tv_sec = i->atime; st->st_mtim.tv_sec = i->mtime; st->st_ctim.tv_sec = i->ctime;
 }
@@ -234,9 +234,9 @@ ssize_t Kernel::sys_read(int fd, void *buf, size_t n) {
     case O_SINK: return fail(EBADF);
     case O_DIRFD: return fail(EISDIR);
     case O_FILE: {
-      Inode *i = of->ino; size_t sz = i->data.size();
+      Inode *i = of->ino; size_t dsz = i->data.size(), sz = dsz + (size_t)i->hole;
       size_t off = (size_t)of->pos; size_t k = off >= sz ? 0 : std::min(n, sz - off);
-      if (k) memcpy(buf, i->data.data() + off, k);
+      if (k) { size_t from_data = off < dsz ? std::min(k, dsz - off) : 0; if (from_data) memcpy(buf, i->data.data() + off, from_data); if (k > from_data) memset((char *)buf + from_data, 0, k - from_data); }
       e.off = of->pos; of->pos += (int64_t)k; i->atime = clock;
       e.data = (const char *)buf; e.len = k; e.ret = (int64_t)k; emit(e); return (ssize_t)k;
     }
@@ -358,7 +358,7 @@ off_t Kernel::sys_lseek(int fd, off_t off, int whence) {
   OFile *of = get_of(fd);
   if (!of) { errno = EBADF; return -1; }
   if (of->kind != O_FILE) { errno = ESPIPE; return -1; }
-  int64_t base = whence == SEEK_SET ? 0 : whence == SEEK_CUR ? of->pos : (int64_t)of->ino->data.size();
+  int64_t base = whence == SEEK_SET ? 0 : whence == SEEK_CUR ? of->pos : (int64_t)(of->ino->data.size() + of->ino->hole);
   if (base + off < 0) { errno = EINVAL; return -1; }
   of->pos = base + off;
   return of->pos;
